@@ -328,6 +328,11 @@ fn step_tdh(mode: u8, which: u8) {
     let rdh = conc_rdh(0, if which == 0 { 1 } else { 0 });
     let pos = any_pos();
     c.reach(St::Tdh, &rdh, pos);
+    if which == 0 {
+        // arbitrary remembered TDH (no rule of this state reads it): the verdict must not depend on it
+        let prev: [u8; 10] = kani::any();
+        c.v.status_words.replace_tdh(Tdh::from_buf(&prev).unwrap());
+    }
     let mut f = tdh_conf();
     match which {
         0 => {
@@ -530,6 +535,10 @@ fn step_choice_ddw0(st: St, mode: u8, which: u8) {
     };
     let pos = any_pos();
     c.reach(st, &rdh, pos);
+    if which == 0 {
+        let prev: [u8; 10] = kani::any();
+        c.v.status_words.replace_ddw(Ddw0::from_buf(&prev).unwrap());
+    }
     let mut w: [u8; 10] = if which == 0 { kani::any() } else { W_DDW0 };
     w[9] = ID_DDW0;
     let sane = ref_ddw0_sane(&w);
@@ -689,6 +698,11 @@ fn step_data(st: St, mode: u8, class: u8, ob_id: u8) {
     if class == 1 || class == 2 {
         let ihw = [lanes as u8, (lanes >> 8) as u8, (lanes >> 16) as u8, (lanes >> 24) as u8, 0, 0, 0, 0, 0, 0xE0];
         c.v.status_words.replace_ihw(Ihw::from_buf(&ihw).unwrap());
+    }
+    if class == 0 {
+        // arbitrary remembered TDT: the verdict on the new one must not depend on it
+        let prev: [u8; 10] = kani::any();
+        c.v.status_words.replace_tdt(Tdt::from_buf(&prev).unwrap());
     }
     let mut w: [u8; 10] = kani::any();
     match class {
